@@ -12,6 +12,7 @@ LABEL_POOL = [
     'q"\n"r', "é", "日本語", "𝄞 clef", "tab\tinside", "a!b", "! bang", "<exists>", "semi;colon", "back\\slash", "x" * 300, "a  b", "%d %s",
     "e\u0301tude", "\u212bngstr\u00f6m", "\u1112\u1161\u11ab", "a\u0303o \u00e3o", "\ufb01n", "1e-05", "xmin", "text", "mark", "number", "size = 3", "null\x00byte", "-", "--", "0", "None", "false", "[]", "_",
 ]
+WS_LABELS = [" ", "  \t", "\n", " pad ", "\nlead", "trail \n", "\t a  b \t", " \u00e9 "]  # surrounding / only white space (file-level data; tiers store labels stripped)
 KEYWORD_LABELS = ['item [2]:', 'intervals [1]:', 'points [1]:', '"IntervalTier"', '"TextTier"', 'class = "IntervalTier"', 'text = "x"',
                   'ooTextFile short', 'item[1]:', 'intervals: size = 2', 'before\nitem [3]:\nafter', 'name = "fake"', 'xmin = 5']
 
@@ -65,8 +66,31 @@ def tiny_numbers(rng):
     return [("tiny", 1e-17), ("tiny", 5e-05), ("tiny", 1.2e-5), ("tiny", rng.uniform(1e-17, 1e-4)), ("tiny", 10.0 ** -rng.randrange(5, 17)), ("tiny", 3e-9)]
 
 
+def epoch_times(rng, n, min_gap):
+    """n ascending timestamps T + j + 0.25 + k*step on a large base T (1e7..1e12): every value is exactly representable, none is
+    within the writer's 1e-14-relative distance of a whole number, and neighbouring ones are about 1e-14*T apart - a stretch that
+    is long in seconds (well above any minimum interval length) yet short relative to the magnitude of the timestamps."""
+    T = float(rng.choice([10 ** 7, 10 ** 8, 10 ** 9, 10 ** 10, 10 ** 11, 10 ** 12]) * rng.randrange(1, 9))
+    step = 2.0 ** math.floor(math.log2(1e-14 * T * 0.5))
+    while step < max(4 * min_gap, 4e-8) or step < 8 * math.ulp(T * 2):
+        step *= 2
+    kmax = max(2, int(0.5 / step))
+    out = set()
+    j = 0
+    while len(out) < n:
+        ks = sorted(rng.sample(range(kmax), min(kmax, rng.randrange(1, 6))))
+        if rng.random() < 0.7 and ks[-1] + 1 < kmax:
+            ks.append(ks[-1] + 1)  # neighbours exactly one step apart
+        for k in ks:
+            out.add(T + j + 0.25 + k * step)
+        j += rng.randrange(1, 4)
+    return sorted(out)[:n]
+
+
 def gen_times(rng, n, scale_class, min_gap):
     """sorted distinct timestamps, consecutive ones at least min_gap apart (0 -> only distinct)"""
+    if scale_class == "epoch":
+        return epoch_times(rng, n, min_gap), {"epoch"}
     cands = number_classes(rng)
     if scale_class == "big":
         cands += big_numbers(rng) * 3
@@ -85,10 +109,12 @@ def gen_times(rng, n, scale_class, min_gap):
     return [vals[i] for i in order], classes
 
 
-def gen_label(rng, keywords=False, allow_empty=True):
+def gen_label(rng, keywords=False, allow_empty=True, ws=False):
     r = rng.random()
     if keywords and r < 0.3:
         return rng.choice(KEYWORD_LABELS)
+    if ws and r > 0.88:
+        return rng.choice(WS_LABELS)
     lab = rng.choice(LABEL_POOL)
     if not allow_empty and lab == "":
         lab = "a"
@@ -127,10 +153,10 @@ def gen_textgrid(rng, **kw):
 
 
 def _gen_textgrid(rng, ntiers=(1, 5), nentries=(0, 7), keywords=False, min_gap=2e-8, scale_class=None, point_tiers=True, full_span=None,
-                 blank_labels=True):
+                 blank_labels=True, ws_labels=False):
     """A well-formed textgrid as plain data + the set of number classes used."""
     if scale_class is None:
-        scale_class = rng.choice(["normal", "normal", "normal", "big", "tiny" if min_gap == 0 else "normal"])
+        scale_class = rng.choice(["normal", "normal", "normal", "big", "tiny" if min_gap == 0 else "normal", "epoch"])
     tiers = []
     classes = set()
     names = []
@@ -148,14 +174,14 @@ def _gen_textgrid(rng, ntiers=(1, 5), nentries=(0, 7), keywords=False, min_gap=2
             ents = []
             i = 0
             while len(ents) < n and i + 1 < len(ts):
-                ents.append((ts[i], ts[i + 1], gen_label(rng, keywords, blank_labels)))
+                ents.append((ts[i], ts[i + 1], gen_label(rng, keywords, blank_labels, ws_labels)))
                 i += rng.choice((1, 1, 2))
         else:
             ts, cl = gen_times(rng, n, scale_class if min_gap == 0 or scale_class != "tiny" else "normal", 0)
             if scale_class == "tiny" or rng.random() < 0.2:
                 ts = sorted(set(ts) | {v for _, v in tiny_numbers(rng)[:2]})
             classes |= cl
-            ents = [(t, gen_label(rng, keywords, blank_labels)) for t in ts[:n]]
+            ents = [(t, gen_label(rng, keywords, blank_labels, ws_labels)) for t in ts[:n]]
         lo = ents[0][0] if ents else 0.0
         hi = ents[-1][-2] if ents else 1.0
         tiers.append({"t": kind, "name": name, "entries": ents, "lo": lo, "hi": hi})
